@@ -15,7 +15,7 @@ memory):
               the same for its files)
 Conformance of the assumed contract: the same table is read and re-written by the real library + installed cfitsio
 (native) and the resulting file must equal the model's file BYTE FOR BYTE; a disagreement aborts the check (exit 2).
-Memory back end: write_fits_mem / read_fits_mem extracted too (same model).  NOT covered: the shipped reference files, cfitsio's own
+Memory back end: write_fits_mem / read_fits_mem extracted too (same model).  Reference files: see C06-reference-files.  NOT covered: cfitsio's own
 byte-level encoding beyond the comparison above."""
 import sys, os, time, json, itertools, random, multiprocessing as mp
 sys.path.insert(0, os.path.dirname(os.path.dirname(os.path.abspath(__file__))))
@@ -234,6 +234,41 @@ def run_case(args):
         ob("execution", False, "%s: %s" % (type(ex).__name__, ex))
     return out, written
 
+def reference_file(path):
+    """a file shipped with the project: parsed into the model byte by byte, read by the extracted reader, decoded by the independent
+    reader of the layout, and compared number by number with what the real library reads"""
+    t0 = time.time(); tag = "reference file %s" % os.path.basename(path); out = []
+    def ob(name, ok, detail=""): out.append(("%s: %s" % (tag, name), ok, detail[:500], time.time() - t0))
+    try:
+        b = open(path, "rb").read(); f = M.from_bytes(b)
+        ob("the model parses the file and serialises it back to the same bytes", f.to_bytes() == b, "to_bytes(from_bytes(file)) differs from the file")
+        it, al = fresh(); H.install_cfitsio(it, M.Session(f), CONSTS)
+        ret = it.call("read_fits_core", [1])
+        if it.globals["vp_thrown"].cells[0] or not ret: ob("the extracted reader accepts it", False, "the reader reported failure"); return out
+        wbad, t = table_of(it)
+        ob("the extracted reader yields a well-formed table", not wbad and t is not None, "; ".join(wbad))
+        if t is None: return out
+        got, bad = independent_read(f)
+        if got["orders"] != t["order"] or got["knots"] != t["knots"] or got["coeffs"] != t["coefficients"] or got["naxes"] != t["naxes"]: bad.append("the independent reader of the documented layout recovers other arrays than the extracted reader")
+        ob("independent reader of the layout and extracted reader agree", not bad, "; ".join(bad))
+        rc, o, w = vlib.sh("timeout -s KILL 60 %s dump %s" % (PROBE, path), timeout=120)
+        real = json.loads(o.strip().splitlines()[-1])
+        bad = []
+        num = lambda v: float(v) if not isinstance(v, str) else {"nan": float("nan"), "inf": float("inf"), "-inf": float("-inf"), "-0": -0.0}[v]
+        if real.get("failed"): bad.append("the real library rejects the file: " + str(real.get("what")))
+        else:
+            if real["order"] != t["order"] or real["naxes"] != t["naxes"] or real["strides"] != t["strides"]: bad.append("orders / axis lengths / strides differ")
+            if [[float(x) for x in k] for k in real["knots"]] != [[num(x) for x in k] for k in t["knots"]]: bad.append("knots differ")
+            if [[float(x) for x in e] for e in real["extents"]] != [[num(x) for x in e] for e in t["extents"]]: bad.append("extents differ")
+            import struct
+            f32 = lambda v: struct.unpack("f", struct.pack("f", v))[0]          # %.9g identifies a binary32 value; compare as binary32
+            rc_ = [f32(float(x)) for x in real["coefficients"]]; mc = [f32(num(x)) for x in t["coefficients"]]
+            if len(rc_) != len(mc) or any(a != b_ and not (a != a and b_ != b_) for a, b_ in zip(rc_, mc)): bad.append("coefficients differ")
+        ob("the real library reads the same table, number by number", not bad, "; ".join(bad))
+    except Exception as ex:
+        ob("execution", False, "%s: %s" % (type(ex).__name__, ex))
+    return out
+
 def native_rewrite(args):
     src, dst = args
     rc, o, w = vlib.sh("timeout -s KILL 60 %s rewrite %s %s" % (PROBE, src, dst), timeout=120)
@@ -279,6 +314,14 @@ def main():
             confbad.append((tag, "files differ at byte %d (card %d of its header block): model %r, cfitsio %r" % (pos, (pos % 2880) // 80, a[pos - pos % 80:pos - pos % 80 + 80], b[pos - pos % 80:pos - pos % 80 + 80])))
         elif not os.path.exists(dst + ".mem") or open(dst + ".mem", "rb").read() != b: confbad.append((tag, "the buffer produced by the real write_fits_mem differs from the file written by write_fits"))
         elif o.count('"equal": true') != 2 and "nan" not in cases[k][1]["coeffs"]: confbad.append((tag, "operator== of the library reports the re-read table different: " + o[-200:]))
+    import glob
+    refs = sorted(glob.glob(os.path.join(vlib.REPO, "test", "test_data", "*.fits")))
+    t2 = time.time()
+    with mp.Pool(min(vlib.NCORES, 10)) as pool: rres = pool.map(reference_file, refs, chunksize=1)
+    rflat = [o for r in rres for o in r]
+    rep.add_group("the reference files shipped with the project: model parse, extracted reader, independent reader and real library agree number by number", len(rflat), sum(1 for o in rflat if o[1]), time.time() - t2, bounded="the %d files under test/test_data" % len(refs), name="C06-reference-files")
+    for o in rflat:
+        if not o[1]: rep.add_violation("C06-reference-files", o[0].replace(" ", "_")[:160], o[0][:300] + ": " + o[2], trace=o[2])
     rep.add_group("conformance of the cfitsio model (writer side): the file written by the extracted writer is read and re-written both by the extracted code over the model and by the real library over the installed cfitsio: the two second-generation files are identical byte for byte", len(jobs), len(jobs) - len(confbad), time.time() - t1, bounded="the %d explored tables" % len(jobs), name="C06-model-conformance")
     if confbad:
         for c in confbad[:10]: print("MODEL-MISMATCH %s :: %s" % c)
@@ -296,7 +339,7 @@ def main():
     rep.extra["evaluations"] = len(cases); rep.extra["distinct_nontrivial"] = len(cases)
     rep.extra["rule"] = "one evaluation = one table written by the extracted writer, decoded by an independent reader of the documented layout, read back by the extracted reader and compared field by field; all tables are distinct and non-trivial"
     rep.assume("cfitsio is an ASSUMED CONTRACT (specs/fitsmodel.py); on the writer side its output is compared byte for byte with what the real library + installed cfitsio write for the same table, on the reader side see C07's conformance obligations",
-               "BOUNDED: enumerated tables; the memory back end is covered through the extracted write_fits_mem / read_fits_mem over the same model (the buffer's bytes are the model file's); the shipped reference files are not decoded here (the repository's own tests read them)",
+               "BOUNDED: enumerated tables; the memory back end is covered through the extracted write_fits_mem / read_fits_mem over the same model (the buffer's bytes are the model file's); the reference files shipped under test/test_data are parsed byte by byte into the model and decoded by the extracted reader, the independent reader and the real library (C06-reference-files)",
                "operator== is not extracted: equality is judged field by field by the check (the library's operator== is run natively on the re-read table for tables without NaN)",
                "PERIODn values are written by cfitsio with 15 significant digits: exact only for the values explored (0, 6.25)")
     rep.trust("tools/gotoexec.py", "goto-cc front end", "tools/extract.py rules", "specs/fitsmodel.py")
